@@ -469,6 +469,163 @@ def problems (Γ : Env) : Stmt → List Problem
   | .ite _ s t => problems Γ s ++ problems Γ t
   | .ret => []
 
+/-! ### definite assignment: a kernel accepted by `da` never reads a variable before it is assigned -/
+
+def Expr.reads : Expr → List Nat
+  | .const _ => []
+  | .var x => [x]
+  | .dim _ => []
+  | .size _ => []
+  | .load _ _ i => i.reads
+  | .add a b => a.reads ++ b.reads
+  | .sub a b => a.reads ++ b.reads
+
+def Cond.reads : Cond → List Nat
+  | .lt a b => a.reads ++ b.reads
+  | .le a b => a.reads ++ b.reads
+  | .eq a b => a.reads ++ b.reads
+  | .ne a b => a.reads ++ b.reads
+  | .nondet _ => []
+  | .acc _ _ i rest => i.reads ++ rest.reads
+  | .and c d => c.reads ++ d.reads
+  | .or c d => c.reads ++ d.reads
+  | .not c => c.reads
+
+def allIn (l A : List Nat) : Bool := l.all fun x => A.contains x
+
+/-- meet of two sets of assigned variables; `none` = this point is not reached (after `return`) -/
+def meetA : Option (List Nat) → Option (List Nat) → Option (List Nat)
+  | none, b => b
+  | a, none => a
+  | some a, some b => some (a.filter fun x => b.contains x)
+
+/-- `(ok, post)`: every variable read in `s` is in the set assigned at that point (starting from `A`), and the
+    variables assigned when `s` falls through (`none`: it never does) -/
+def da (A : List Nat) : Stmt → Bool × Option (List Nat)
+  | .skip => (true, some A)
+  | .seq s t =>
+    match da A s with
+    | (ok, none) => (ok, none)
+    | (ok, some B) =>
+      let r := da B t
+      (ok && r.1, r.2)
+  | .assign x e => (allIn e.reads A, some (x :: A))
+  | .havoc x => (true, some (x :: A))
+  | .pick x _ => (true, some (x :: A))
+  | .store _ _ i v => (allIn i.reads A && allIn v.reads A, some A)
+  | .touch _ _ i => (allIn i.reads A, some A)
+  | .push _ v => (allIn v.reads A, some A)
+  | .pop _ _ => (true, some A)
+  | .clear _ => (true, some A)
+  | .forRange x lo hi body => (allIn lo.reads A && allIn hi.reads A && (da (x :: A) body).1, some A)
+  | .while c body => (allIn c.reads A && (da A body).1, some A)
+  | .ite c s t =>
+    let r1 := da A s
+    let r2 := da A t
+    (allIn c.reads A && r1.1 && r2.1, meetA r1.2 r2.2)
+  | .ret => (true, none)
+
+def notIn (l A : List Nat) : List Nat := l.filter fun x => !A.contains x
+
+/-- the variables that may be read before being assigned (diagnostics of `da`) -/
+def daBad (A : List Nat) : Stmt → List Nat
+  | .skip => []
+  | .seq s t =>
+    match da A s with
+    | (_, none) => daBad A s
+    | (_, some B) => daBad A s ++ daBad B t
+  | .assign _ e => notIn e.reads A
+  | .havoc _ => []
+  | .pick _ _ => []
+  | .store _ _ i v => notIn i.reads A ++ notIn v.reads A
+  | .touch _ _ i => notIn i.reads A
+  | .push _ v => notIn v.reads A
+  | .pop _ _ => []
+  | .clear _ => []
+  | .forRange x lo hi body => notIn lo.reads A ++ notIn hi.reads A ++ daBad (x :: A) body
+  | .while c body => notIn c.reads A ++ daBad A body
+  | .ite c s t => notIn c.reads A ++ daBad A s ++ daBad A t
+  | .ret => []
+
+/-! ### the same semantics with a *step* budget (for running the IR on concrete inputs in the driver; `exec`'s
+    fuel bounds the depth, which makes its cost exponential in the fuel on long loops) -/
+
+inductive SRes where
+  | ok (σ : State) (steps : Nat)
+  | done
+  | err (e : Err)
+  | out                                   -- the step budget ran out
+
+def execS : Nat → Nat → Stmt → State → SRes
+  | 0, _, _, _ => .out
+  | _, 0, _, _ => .out
+  | f+1, n+1, s, σ =>
+    match s with
+    | .skip => .ok σ n
+    | .seq s t =>
+      match execS f (n+1) s σ with
+      | .ok σ' m => execS f m t σ'
+      | r => r
+    | .assign x e =>
+      match evalE σ e with
+      | .error e => .err e
+      | .ok v => .ok (σ.setVar x v) n
+    | .havoc x => .ok ((σ.setVar x (σ.orc σ.tick 0)).step) n
+    | .pick x a =>
+      match (σ.arrs a)[(σ.orc σ.tick 0).toNat % (σ.arrs a).length]? with
+      | none => .done
+      | some v => .ok ((σ.setVar x v).step) n
+    | .store site a i v =>
+      match evalE σ i with
+      | .error e => .err e
+      | .ok iv =>
+        match evalE σ v with
+        | .error e => .err e
+        | .ok vv => if inb iv (σ.arrs a) then .ok (σ.setArr a ((σ.arrs a).set iv.toNat vv)) n else .err (.oob site)
+    | .touch site a i =>
+      match evalE σ i with
+      | .error e => .err e
+      | .ok iv => if inb iv (σ.arrs a) then .ok σ n else .err (.oob site)
+    | .push a v =>
+      match evalE σ v with
+      | .error e => .err e
+      | .ok vv => .ok (σ.setArr a (σ.arrs a ++ [vv])) n
+    | .pop site a =>
+      if (σ.arrs a).isEmpty then .err (.oob site)
+      else .ok ((σ.setArr a ((σ.arrs a).eraseIdx ((σ.orc σ.tick 0).toNat % (σ.arrs a).length))).step) n
+    | .clear a => .ok (σ.setArr a []) n
+    | .forRange x lo hi body =>
+      match evalE σ lo with
+      | .error e => .err e
+      | .ok l =>
+        match evalE σ hi with
+        | .error e => .err e
+        | .ok h =>
+          -- unrolled as a while loop over a counter kept outside the state
+          let rec go (f : Nat) (k : Nat) (cur : Int) (σ : State) (m : Nat) : SRes :=
+            match f, k with
+            | _, 0 => .ok σ m
+            | 0, _ => .out
+            | f'+1, k'+1 =>
+              match execS f' m body (σ.setVar x cur) with
+              | .ok σ' m' => go f' k' (cur + 1) σ' m'
+              | r => r
+          go f (h - l).toNat l σ n
+    | .while c body =>
+      match evalC σ c with
+      | .error e => .err e
+      | .ok false => .ok σ.step n
+      | .ok true =>
+        match execS f n body σ.step with
+        | .ok σ' m => execS f m (.while c body) σ'
+        | r => r
+    | .ite c s t =>
+      match evalC σ c with
+      | .error e => .err e
+      | .ok true => execS f n s σ.step
+      | .ok false => execS f n t σ.step
+    | .ret => .done
+
 /-! ### inputs of a kernel: what the Python wrapper hands over -/
 
 structure Inputs where
@@ -524,6 +681,7 @@ structure Kernel where
   name : String
   env : Env
   body : Stmt
+  params : List Nat            -- the variables that have a value on entry (integer parameters, object fields)
   siteNames : List String
   varNames : List String
   arrNames : List String
@@ -533,5 +691,7 @@ def Kernel.ill (K : Kernel) : List Nat := (illSites K.env [] K.body).eraseDups
 def Kernel.checkWith (K : Kernel) (ill : List Nat) : Bool := check K.env ill [] K.body
 /-- every access of the kernel is kinded -/
 def Kernel.wellKinded (K : Kernel) : Bool := check K.env [] [] K.body
+/-- no variable is read before it is assigned (given values for `K.params`) -/
+def Kernel.assigned (K : Kernel) : Bool := (da K.params K.body).1
 
 end SkNet.IR
